@@ -180,7 +180,7 @@ CLAIMED = {
         technique='Coq proof (induction over the dispatch loop and reader loops) + extracted-model correspondence + line-recording generator oracle',
         design='5/C13'),
     'C06': dict(
-        text='SOUNDNESS FOR EVERY TEXT without backslash, backtick and completed links (C06_emphasis_sound): each emphasis the inline scanner of the model finds pairs a maximal run of * or _ that can open with one that can close, of the same character, not excluded by the rule of three on the original run lengths, and it starts inside the opening run and ends inside the closing run - by invariants of the two loops (the scanner\'s stack holds the delimiters of the maximal runs; every delimiter process_emphasis works on is what is left of one of them; C06_process_emphasis_sound holds for EVERY delimiter stack and stack bottom); with is_opener / is_closer proved equal to the specification\'s flanking rules and to the source\'s functions this is the soundness half of the property for all such texts - that the matches are exactly the specification\'s (priority among candidates) is what remains bounded. Unbounded, end to end through the inline phase: the texts *w*, _w_, **w**, __w__ whose inside w (any length) is free of trigger characters and begins and ends with a character that is neither white space nor punctuation tokenize to exactly one Emphasis / Strong holding w, rendered <em>w</em> / <strong>w</strong> (scanner, flanking, process_emphasis, all span finders, candidate tokenizer: C06_simple_emphasis); the same pair of runs inside a sentence, pre + run + w + run + post with trigger-free text of any length before and after it that meets the runs with white space, punctuation or nothing, tokenizes to text, one Emphasis / Strong, text (C06_emphasis_in_sentence). The model\'s is_opener / is_closer / is_left_delimiter / is_right_delimiter / closed_by are proved equal to the functions translated from core_tokens.py on every run (C06_flanking_is_the_source). Unbounded theorems: the flanking classification of the model (is_opener / is_closer) equals the specification\'s left/right flanking with the '
+        text='SOUNDNESS FOR EVERY TEXT without backslash, backtick and completed links (C06_emphasis_sound): each emphasis the inline scanner of the model finds pairs a maximal run of * or _ that can open with one that can close, of the same character, not excluded by the rule of three on the original run lengths, and it starts inside the opening run and ends inside the closing run - by invariants of the two loops (the scanner\'s stack holds the delimiters of the maximal runs; every delimiter process_emphasis works on is what is left of one of them; C06_process_emphasis_sound holds for EVERY delimiter stack and stack bottom); with is_opener / is_closer proved equal to the specification\'s flanking rules and to the source\'s functions this is the soundness half of the property for all such texts - that the matches are exactly the specification\'s (priority among candidates) is what remains bounded. Unbounded, end to end through the inline phase: the texts *w*, _w_, **w**, __w__ whose inside w (any length) is free of trigger characters and begins and ends with a character that is neither white space nor punctuation tokenize to exactly one Emphasis / Strong holding w, rendered <em>w</em> / <strong>w</strong> (scanner, flanking, process_emphasis, all span finders, candidate tokenizer: C06_simple_emphasis); the same pair of runs inside a sentence, pre + run + w + run + post with trigger-free text of any length before and after it that meets the runs with white space, punctuation or nothing, tokenizes to text, one Emphasis / Strong, text (C06_emphasis_in_sentence). EXACTNESS FOR ANY NUMBER OF PHRASES (C06_sequential_pairs, C06_emphasis_phrases): on a delimiter stack that is a sequence of n pairs opener, closer (same character, same length one or two, the opener only able to open, the closer only able to close) process_emphasis matches every closer with the opener before it, in order, and leaves nothing - induction over the code\'s loop, the openers_bottom table stays empty; and end to end the text t0 R1 w1 R1 t1 ... Rn wn Rn tn (trigger-free words and separators, each separator non-empty and beginning and ending with white space or punctuation) tokenizes to t0 and, for every phrase, one Emphasis / Strong holding wi followed by ti, for every n: scanner over all 2n runs with their flanking, the pairing, all span finders, and the candidate tokenizer on n candidates that parse their content (Proofs/ChainTokens.v generalises the non-overlap theorem of the span tokenizer). The model\'s is_opener / is_closer / is_left_delimiter / is_right_delimiter / closed_by are proved equal to the functions translated from core_tokens.py on every run (C06_flanking_is_the_source). Unbounded theorems: the flanking classification of the model (is_opener / is_closer) equals the specification\'s left/right flanking with the '
              'underscore restrictions for ALL strings and positions (both character tables regenerated; the implementation\'s sets are proved equal to '
              'sets derived from unicodedata by the CommonMark definition), and closed_by is the negated rule of three on original lengths. Bounded theorems, '
              'kernel-evaluated in 33 shards: the complete inline parse of the model equals an independent Gallina transcription of the specification\'s '
